@@ -137,14 +137,23 @@ def one_case(case):
             stage = "query"
             q = ds
             md = {"metadata_type": "docker", "image": "meta/image:7"}
-            if md_pos == "first":
+            other = {"metadata_type": "docker", "image": "other/image:1"}
+            # 'aba' / 'aab': three / four docker blocks with the wanted image at BOTH ends of the chain, so that it runs whichever end has
+            # precedence (the property does not say which of several docker blocks wins)
+            if md_pos in ("first", "aba", "aab"):
                 q = q.MetaData(md)
             q = q.Where(f"lambda e: e.{coll}('A').Count() >= 0")
             if md_pos == "middle":
                 q = q.MetaData(md)
-            q = q.Select(f"lambda e: e.{coll}('A').Count()")
-            if md_pos == "last":
+            if md_pos == "aba":
+                q = q.MetaData(other)
+            if md_pos == "aab":
                 q = q.MetaData(md)
+            q = q.Select(f"lambda e: e.{coll}('A').Count()")
+            if md_pos in ("last", "aba"):
+                q = q.MetaData(md)
+            if md_pos == "aab":
+                q = q.MetaData(other).MetaData(md)
             stage = "value"
             r = q.value()
             obs["returned"] = [str(x) for x in r] if isinstance(r, (list, tuple)) else str(r)
@@ -263,10 +272,12 @@ def main(tier="quick"):
     for backend in BACKENDS:
         for shape in FILE_SHAPES:
             for image_mode in ("default", "custom", "registry-port", "tag-only"):
-                for md_pos in ("none", "first", "middle", "last"):
+                for md_pos in ("none", "first", "middle", "last", "aba", "aab"):
                     for outdir_mode in ("default", "given"):
                         for beh in BEHAVIOURS:
                             for tinit in (True, False):
+                                if md_pos in ("aba", "aab") and (beh != ("ok", 1, None) or not tinit or outdir_mode != "default" or image_mode != "default" or shape not in ("one-path", "two-same-dir")):
+                                    continue      # several docker blocks: crossed with the backends only
                                 if image_mode in ("registry-port", "tag-only") and (beh != ("ok", 1, None) or not tinit or outdir_mode != "default" or md_pos in ("first", "middle")):
                                     continue      # unusual image names: crossed with file shapes and metadata presence only
                                 if tier == "quick":
